@@ -35,6 +35,9 @@ def cases(seed, tier):
     for r in range(10 if tier == 'quick' else 600):
         out.append({'mode': 'synthetic', 'd': int(rng.integers(2, 7)), 'seed': int(rng.integers(1 << 31)),
                     'cdf_rows': 30})
+    # wide models: far-out rows have a density that underflows to 0 (density part only)
+    for r in range(2 if tier == 'quick' else 40):
+        out.append({'mode': 'synthetic', 'd': int(rng.choice([64, 80])), 'seed': int(rng.integers(1 << 31)), 'cdf_rows': 0})
     return out
 
 
@@ -104,6 +107,13 @@ def _check_pdf(ctx, model, Q, S, where):
         lp = np.atleast_1d(np.asarray(lp, dtype=float))
         pos = p > 1e-300
         ctx.check(np.allclose(lp[pos], np.log(p[pos]), rtol=1e-9, atol=1e-9), 'logpdf.is-log', 'C13:logpdf-not-log-pdf', where)
+        under = ~pos
+        if under.any() and cond < 1e8:
+            # the density underflowed: its logarithm is -inf, or - if computed directly - the MVN log-density itself
+            lref = mvn.logpdf(Zs[under], S)
+            oku = np.isneginf(lp[under]) | (np.abs(lp[under] - lref) <= 1e-6 * np.abs(lref))
+            ctx.check(bool(oku.all()), 'logpdf.is-log', 'C13:logpdf-of-underflowing-density-wrong',
+                      lambda: dict(where, got=lp[under][:3], reference_log_density=lref[:3]))
     else:
         ctx.violation('logpdf.is-log', 'C13:logpdf-' + exc_mech(lp), dict(exc_detail(lp), **where))
     # representations -----------------------------------------------------------------------------------
@@ -187,7 +197,11 @@ def _check_cdf(ctx, model, Q, S, where, exact_blocks=None):
         ctx.maxstat('|CDF - quadrature reference|', float(np.nanmax(err)), where)
     else:
         band = stats.grid_eps(400_000, 1) + 2e-4
-        for k in range(min(4, len(Q))):
+        # two ordinary rows, and rows in which a single coordinate lies far outside its marginal's range (its normal
+        # score saturates; the CDF is then that of the other coordinates) - preferably not the last coordinate
+        sat = [k for k in range(len(Q)) if (np.abs(Zs[k]) >= 5).sum() == 1 and (Zs[k] >= 5).sum() == 1]
+        sat.sort(key=lambda k: int(np.argmax(np.abs(Zs[k]))))
+        for k in list(range(min(2, len(Q)))) + sat[:3]:
             ref = mvn.mc_cdf(Zs[k], S)
             ctx.check(abs(F[k] - ref) <= band, 'cdf.reference', 'C13:cdf-not-mvn-cdf-of-normal-scores',
                       lambda: dict(where, row=Q.iloc[k].tolist(), got=F[k], ref=ref, kind='monte-carlo', band=band))
@@ -245,7 +259,8 @@ def run_case(spec, ctx):
         where = {'mode': 'synthetic', 'd': d, 'blocks': blocks}
         Q = _queries(df, rng, 48)
         _check_pdf(ctx, model, Q, S, where)
-        _check_cdf(ctx, model, Q.iloc[:spec['cdf_rows']], S, where, exact_blocks=blocks)
+        if d <= 8:
+            _check_cdf(ctx, model, Q.iloc[:spec['cdf_rows']], S, where, exact_blocks=blocks)
         ctx.nontriv('synthetic|%d' % spec['seed'])
         return
     t = spec['table']
@@ -268,7 +283,9 @@ def run_case(spec, ctx):
         Q = _queries(df, rng, bs)
         _check_pdf(ctx, model, Q, S, dict(where, batch=len(Q)))
     if np.linalg.cond(S) < 1e6:
-        Qc = _queries(df, rng, spec['cdf_rows']).iloc[:spec['cdf_rows']]
+        Qall = _queries(df, rng, spec['cdf_rows'])
+        import pandas as pd
+        Qc = pd.concat([Qall.iloc[:spec['cdf_rows'] - 6], Qall.iloc[-6:]])       # keeps the one-coordinate-far rows
         _check_cdf(ctx, model, Qc, S, where)
     else:
         ctx.note('CDF not judged on ill-conditioned correlation (scipy integrator)')
